@@ -39,7 +39,7 @@ class C19(Prop):
     def plan(self, tier):
         # a few JIT-compiled worker interpreters too: read-only / Fortran-ordered arrays reach the compiled kernels there
         if tier == "quick":
-            return {"nojit": dict(count=240, workers=13), "jit": dict(count=45, workers=3, numba_threads=4),
+            return {"nojit": dict(count=221, workers=13), "jit": dict(count=24, workers=3, numba_threads=4),
                     "_soft_deadline": 90}
         return {"nojit": dict(count=12000, workers=13), "jit": dict(count=1500, workers=3, numba_threads=4),
                 "_soft_deadline": 1500}
@@ -159,8 +159,13 @@ class C19(Prop):
     def run_case(self, idx, seed, tier, mode):
         rec = Record()
         r = core.rng(seed, "C19", "plan")
+        import time as _t
         case = self.gen(seed)
+        _t0 = _t.time()
         out = runner.execute(case, owned=True)
+        expensive = tier == "quick" and (_t.time() - _t0) > 1.5     # slowly converging solver: fewer re-executions
+        if expensive:
+            rec.probe("expensive_case_fewer_reexecutions")
         rec.absorb(out)
         found = [(k, d, dict(kind="call", case=freeze_decisions(case, out))) for k, d in self.judge_call(out)]
         if case["pool"]["direct"]:
@@ -185,7 +190,7 @@ class C19(Prop):
             # calls aborted by injected faults at enumerated points of this run
             pts = C20.fault_points(None, out, r)
             pts = [p for p in pts if p.get("when") != "unpicklable"]
-            npts = 3 if tier == "quick" else 8
+            npts = (1 if expensive else 3) if tier == "quick" else 8
             for pt in r.sample(pts, min(npts, len(pts))):
                 c = workload.clone(case)
                 c["faults"] = [dict(pt)]
@@ -211,7 +216,7 @@ class C19(Prop):
                     found.append((k, "[real pool] " + d, dict(kind="call", case=c)))
         # later calls in the same process must not reach back into the objects of this call
         later = []
-        for j in range(2):
+        for j in range(1 if expensive else 2):
             c2 = workload.clone(case)
             c2["np_seed"] = (case["np_seed"] + 1 + j) % (2 ** 32)
             if j == 0:
